@@ -54,6 +54,7 @@ def main():
     ap.add_argument("--jobs", type=int, default=4)
     ap.add_argument("--only", default="")
     ap.add_argument("--all-checks", action="store_true")
+    ap.add_argument("--no-table", action="store_true", help="do not touch seeded/SWEEP.md (e.g. a sweep under another VERIF_SEED)")
     ap.add_argument("--update-meta", action="store_true", help="write the failing clauses seen into seeded/<id>/meta.json")
     a = ap.parse_args()
     names = sorted(n for n in os.listdir(os.path.join(HERE, "seeded"))
@@ -79,6 +80,8 @@ def main():
     for name, verdict, rcs, clauses in rows:
         cl = "; ".join(sorted({x for c, xs in clauses.items() for x in xs}))[:300]
         table[name] = "| %s | %s | %s | %s |\n" % (name, verdict, " ".join("%s=%d" % kv for kv in sorted(rcs.items())), cl)
+    if a.no_table:
+        path = os.devnull
     with open(path, "w") as f:
         f.write("# Seeded changes against the %s checks (repository HEAD %s at the last sweep)\n\n" % (a.tier, head))
         f.write("| change | verdict | checks (exit code) | failing clauses |\n|---|---|---|---|\n")
